@@ -7,6 +7,12 @@ rejected-and-counted, waiting, in service, or completed exactly once; work in se
 the concurrency limit, and no simulated time passes while an item waits and the worker has free
 capacity **for it**."
 
+Reading of *rejected-and-counted*: the statement does not say that a rejection happens at offer only.
+`Server` may dequeue a request on one free unit and then find that its weight does not fit; it
+rejects it and counts it in `requests_rejected`.  That is a fifth population, "rejected by the worker,
+counted" — inside the property as long as (a) the request really did not fit, (b) the rejection is
+counted at that very delivery, (c) the request takes and returns no capacity and never starts.
+
 The judge keeps its own books from the log of deliveries alone: which items wait (with their
 weights), which are in transit, which are in service.  *Work in service* is the sum of the weights
 of the started-and-not-finished items (one per item for the fixed and the dynamic model).  Clauses:
@@ -16,9 +22,18 @@ of the started-and-not-finished items (one per item for the fixed and the dynami
 * every start takes exactly the item's weight out of the reported `active_requests`, every finish
   gives exactly that back; reported `active_requests` / `available_capacity` / limit equal the
   judge's books after every delivery;
-* when an instant is over nothing is in transit, and the item the policy would hand out next does
-  not fit into the free capacity (`limit − in-service weight < its weight`);
-* a poll may come back empty only if nothing waits or the next item does not fit.
+* a dequeued item is rejected by the worker only if its weight does not fit (`rejected-although-fits`
+  otherwise), `requests_rejected` goes up by exactly one at that delivery and equals the judge's count
+  ever after (an item that vanishes uncounted is `accepted-item-discarded`), `active_requests` does
+  not move;
+* when an instant is over nothing is in transit and **no waiting item fits** into the free capacity
+  (`limit − in-service weight < its weight` for every waiting item): the code dequeues on one free
+  unit and throws a non-fitting head away rather than letting it block, so whenever something still
+  waits no unit at all is free; a poll may come back empty only if nothing waits;
+* with `admission` (the design suggestion, where a non-fitting head stays queued and blocks the items
+  behind it in policy order) the last clause speaks about the item the policy would hand out next
+  only, a poll may also come back empty when that item does not fit, and a rejection after dequeue
+  is never legal.
 -/
 namespace HappyModel.C08.PipeW
 
@@ -43,6 +58,7 @@ structure JSt where
   service : List WItem := []
   done : List Nat := []
   refused : List Nat := []
+  rejectedW : List Nat := []    -- dequeued, did not fit, rejected by the worker and counted
   offered : List Nat := []
   accepted : Nat := 0
   lastT : Nat := 0
@@ -62,17 +78,20 @@ def capFullW (cap : Option Nat) (n : Nat) : Bool :=
   | none => false
   | some k => decide (k ≤ n)
 
-/-- the instant `lastT` is over: nothing may be in transit, the next item must not fit -/
+def fitsJ (c : WCfg) (j : JSt) (it : WItem) : Bool := decide (j.used c + wOf c it ≤ j.limit)
+
+/-- the items that may not be left waiting beside enough free capacity: all of them (HEAD), or the
+    one the policy hands out next (`admission`: a heavier head blocks in policy order) -/
+def mustNotFit (c : WCfg) (j : JSt) : List WItem :=
+  if c.admission then (pick c.kind j.waiting).toList else j.waiting
+
+/-- the instant `lastT` is over: nothing may be in transit, nothing that fits may wait -/
 def strandCheck (c : WCfg) (j : JSt) : Option String :=
   if !j.transit.isEmpty then some "pipe/strand/dequeued-item-not-started-in-its-instant"
-  else
-    match pick c.kind j.waiting with
-    | none => none
-    | some it =>
-      if decide (j.used c + wOf c it ≤ j.limit) then
-        some (if j.raised then "pipe/strand/waiting-with-free-capacity/limit-raised-without-poll"
-              else "pipe/strand/waiting-with-free-capacity")
-      else none
+  else if (mustNotFit c j).any (fitsJ c j) then
+    some (if j.raised then "pipe/strand/waiting-with-free-capacity/limit-raised-without-poll"
+          else "pipe/strand/waiting-with-free-capacity")
+  else none
 
 def judgeAct (c : WCfg) (j : JSt) (o : Obs) : Except String JSt :=
   match o.act, o.res with
@@ -89,7 +108,7 @@ def judgeAct (c : WCfg) (j : JSt) (o : Obs) : Except String JSt :=
     match pick c.kind j.waiting with
     | none => .ok { j with raised := false }
     | some it =>
-      if decide (j.used c + wOf c it ≤ j.limit) then .error "pipe/queue/poll-none-but-work-waiting"
+      if !c.admission || fitsJ c j it then .error "pipe/queue/poll-none-but-work-waiting"
       else .ok { j with raised := false }
   | .poll, .popped (some i) =>
     match byId j.waiting i with
@@ -104,12 +123,14 @@ def judgeAct (c : WCfg) (j : JSt) (o : Obs) : Except String JSt :=
     | none => .error "pipe/item/started-not-in-transit"
     | some it =>
       if o.w != it.w then .error "pipe/item/weight-changed-in-queue"
-      else if !ok then
-        -- distinguished: the poll was granted for one unit, the item needs more than is free
-        if decide (j.used c + 1 ≤ j.limit) && decide (j.limit < j.used c + wOf c it) then
-          .error "pipe/worker/accepted-item-discarded/weight-exceeds-free-capacity"
-        else .error "pipe/worker/accepted-item-discarded"
       else if c.kind == .fifo && (j.transit.head?.map (·.id)) != some i then .error "pipe/order/start-not-in-dequeue-order"
+      else if !ok then
+        -- rejected by the worker after dequeue: legal only if it really does not fit, counted now, nothing taken
+        if c.admission then .error "pipe/worker/accepted-item-discarded"
+        else if fitsJ c j it then .error "pipe/worker/rejected-although-fits"
+        else if o.rejected != j.rejectedW.length + 1 then .error "pipe/worker/accepted-item-discarded"
+        else if o.active != j.prevActive then .error "pipe/worker/capacity-taken-by-rejected-item"
+        else .ok { j with transit := j.transit.erase it, rejectedW := i :: j.rejectedW }
       else
         let j' := { j with transit := j.transit.erase it, service := j.service ++ [it] }
         if j'.limit < j'.used c then
@@ -142,10 +163,11 @@ def judgeCounters (c : WCfg) (j : JSt) (o : Obs) : Option String :=
   else if o.acc != j.accepted then some "pipe/counters/accepted"
   else if o.dropped != j.refused.length then some "pipe/counters/dropped-not-refused-count"
   else if o.completed != j.done.length then some "pipe/counters/completed"
+  else if o.rejected != j.rejectedW.length then some "pipe/counters/rejected-not-rejected-by-worker-count"
   else if o.active != j.used c then some "pipe/worker/counter-mismatch"
   else if o.limit != j.limit then some "pipe/worker/counter-mismatch/limit"
   else if o.avail != j.limit - j.used c then some "pipe/worker/counter-mismatch/available"
-  else if o.acc != j.waiting.length + j.transit.length + j.service.length + j.done.length then
+  else if o.acc != j.waiting.length + j.transit.length + j.service.length + j.done.length + j.rejectedW.length then
     some "pipe/conservation"
   else none
 
